@@ -687,6 +687,10 @@ pub fn check_conc(
 
   let texts: Vec<(String, Vec<u8>)> = scn.objects.iter().map(content).collect();
   let ascii: Vec<bool> = scn.objects.iter().map(is_ascii_tree).collect();
+  // Objects with a composite above a cache: their positional answers depend on
+  // the inner cache's history even sequentially (recorded finding, DESIGN 12),
+  // so only their text is compared against the sequential family.
+  let fragile: Vec<bool> = scn.objects.iter().map(crate::strict::composite_over_cache).collect();
 
   // ---- sequential family -------------------------------------------------
   let mut allowed: Vec<Vec<BTreeSet<Key>>> = scn
@@ -725,6 +729,13 @@ pub fn check_conc(
           ),
         });
       }
+      if !seq.self_deadlocks.is_empty() {
+        violations.push(Violation {
+          kind: "deadlock".into(),
+          op_class: "sequential".into(),
+          detail: format!("a single-threaded call sequence waits forever for a lock: {:?}", seq.self_deadlocks),
+        });
+      }
       if seq.events.contains_key("cache.replaced") || seq.events.contains_key("cache.removed") {
         violations.push(Violation {
           kind: "cache_replaced".into(),
@@ -749,20 +760,21 @@ pub fn check_conc(
                   stats: Default::default(),
                   tail: vec![],
                   unsafe_fails: vec![],
+                  self_deadlocks: vec![],
                 },
                 skipped: Some(format!("sequential baseline panics: {}", m)),
               };
             }
           }
         }
-        let attribution = ascii[op.obj] && !gated;
-        allowed[*t][*i].insert(key_of(a, &op.kind, &texts[op.obj].0, attribution, ascii[op.obj] && !gated));
+        let attribution = ascii[op.obj] && !gated && !fragile[op.obj];
+        allowed[*t][*i].insert(key_of(a, &op.kind, &texts[op.obj].0, attribution, attribution));
       }
       if full {
         for (o, answers) in seq.tail.iter().enumerate() {
           for (k, a) in answers.iter().enumerate() {
-            let attribution = ascii[o] && !gated;
-            allowed_tail[o][k].insert(key_of(a, &TAIL_OPS[k], &texts[o].0, attribution, ascii[o] && !gated));
+            let attribution = ascii[o] && !gated && !fragile[o];
+            allowed_tail[o][k].insert(key_of(a, &TAIL_OPS[k], &texts[o].0, attribution, attribution));
           }
         }
       }
@@ -815,6 +827,13 @@ pub fn check_conc(
       detail: format!("unsafe precondition violated: {:?}", outcome.unsafe_fails),
     });
   }
+  if !outcome.self_deadlocks.is_empty() {
+    violations.push(Violation {
+      kind: "deadlock".into(),
+      op_class: "schedule".into(),
+      detail: format!("after the threads ended a single-threaded call waits forever for a lock: {:?}", outcome.self_deadlocks),
+    });
+  }
 
   let aborted_run = outcome.stats.abort.is_some();
   // per-op checks
@@ -825,6 +844,13 @@ pub fn check_conc(
         continue;
       }
       if let Answer::Panicked(m) = a {
+        if crate::strict::is_overflow_panic(m)
+          && crate::strict::is_positional_op(&op.kind)
+          && (gated || fragile[op.obj] || !ascii[op.obj])
+        {
+          counters.inc("overflow_in_position_arithmetic_not_judged");
+          continue;
+        }
         if !aborted_run {
           violations.push(Violation {
             kind: if m.contains("rspack_sources_verif: precondition") {
@@ -852,8 +878,14 @@ pub fn check_conc(
         continue;
       }
       if cfg.compare_answers && !cfg.skip_baselines {
-        let attribution = ascii[op.obj] && !gated;
-        let k = key_of(a, &op.kind, &texts[op.obj].0, attribution, ascii[op.obj] && !gated);
+        let attribution = ascii[op.obj] && !gated && !fragile[op.obj];
+        if gated && crate::strict::is_positional_op(&op.kind) {
+          // a cache over a tree that is not self-consistent: its map / stream
+          // answers (even their text, for multi-byte content) depend on the
+          // path taken; C10 records that, nothing is compared here
+          continue;
+        }
+        let k = key_of(a, &op.kind, &texts[op.obj].0, attribution, attribution);
         let set = &allowed[t][i];
         // A cancelled stream is a fault, not an answer: what matters is the
         // state afterwards (later ops and the tail pass). Whether the
@@ -890,7 +922,10 @@ pub fn check_conc(
       for (k, a) in answers.iter().enumerate() {
         if let Answer::Panicked(m) = a {
           // a panic that the sequential tail shows too is out of domain
-          if !allowed_tail[o][k].contains(&Key::Panicked) {
+          let tolerated = crate::strict::is_overflow_panic(m)
+            && crate::strict::is_positional_op(&TAIL_OPS[k])
+            && (gated || fragile[o] || !ascii[o]);
+          if !tolerated && !allowed_tail[o][k].contains(&Key::Panicked) {
             violations.push(Violation {
               kind: "panic_after_run".into(),
               op_class: TAIL_OPS[k].class().into(),
@@ -899,17 +934,21 @@ pub fn check_conc(
           }
           continue;
         }
-        let attribution = ascii[o] && !gated;
-        let key = key_of(a, &TAIL_OPS[k], &texts[o].0, attribution, ascii[o] && !gated);
+        let attribution = ascii[o] && !gated && !fragile[o];
+        if gated && crate::strict::is_positional_op(&TAIL_OPS[k]) {
+          continue;
+        }
+        let key = key_of(a, &TAIL_OPS[k], &texts[o].0, attribution, attribution);
         if !allowed_tail[o][k].contains(&key) {
           violations.push(Violation {
             kind: "state_after_run".into(),
             op_class: TAIL_OPS[k].class().into(),
             detail: format!(
-              "after the threads ended, {} on object {} answers {} which no sequential order produces",
+              "after the threads ended, {} on object {} answers {} which no sequential order produces (allowed: {})",
               TAIL_OPS[k].label(),
               o,
-              a.brief()
+              a.brief(),
+              allowed_tail[o][k].iter().map(|k| format!("{:?}", k)).collect::<Vec<_>>().join(" | ")
             ),
           });
         }
